@@ -27,7 +27,7 @@ RULE = ("poll histories on one region's event queue through the real request/res
         "a swallowed event or a lost response; distinct by content.")
 ASSUMPTIONS = [
     "the viewer re-polls with a stale acknowledgement only after a response was lost; simulator response ids are strictly increasing",
-    "each announced simulator address comes with its own seed capability URL (as on a real grid)",
+    "each announcement of a simulator address comes with a fresh seed capability URL (as on a real grid: seeds are per connection)",
 ]
 EXHAUSTIVE_PARTS = {"quick": ["all sequences of 10 abstract events to depth 4"], "thorough": ["all sequences of 10 abstract events to depth 6"]}
 FLOORS = {"quick": {"histories": 300, "polls": 3000, "replays": 300, "swallowed": 300, "injected_delivered": 300, "emptied_to_undef": 100,
@@ -68,7 +68,8 @@ def _ip(n):
 def make_event(kind, n, addr_n):
     ip, port = _ip(addr_n), 14000 + addr_n
     handle = (2000 + addr_n) << 32 | 3000
-    seed = "https://sim-new-%d.example.com/cap/seed-%d" % (addr_n, addr_n)
+    # every connection to a simulator gets a fresh seed capability: a re-announced address comes with a new URL
+    seed = "https://sim-new-%d.example.com/cap/seed-%d-%d" % (addr_n, addr_n, n)
     if kind == "plain":
         return {"message": "FooEvent%d" % (n % 3), "body": {"verif_n": n, "text": "e%d" % n}}
     if kind == "templated":
@@ -109,6 +110,7 @@ class Run:
         self.cache = (None, None)      # (request ack, payload) of the last 200 response that carried events
         self.addresses = set()
         self.n_regions0 = len(self.sess.regions)
+        self.seeds = {}
         self.counts = {}
         self.nontrivial = False
         self.inj_n = 0
@@ -212,10 +214,25 @@ class Run:
                 if len(self.addon.seen) != len(sim_events):
                     out.append(("hook:invocations", "addon hook saw %d of %d simulator events" % (len(self.addon.seen), len(sim_events))))
                 # region registration
-                for (kind, addr_n), d in zip(events, decs):
+                for (kind, addr_n), d, ev in zip(events, decs, sim_events):
                     if kind in ANNOUNCE and d != "swallow":
+                        if addr_n in self.addresses:
+                            self.count("regions_reannounced")
                         self.addresses.add(addr_n)
                         self.count("regions_announced")
+                        seed = {"establish": lambda e: e["body"]["seed-capability"], "teleport": lambda e: e["body"]["Info"][0]["SeedCapability"],
+                                "crossed": lambda e: e["body"]["RegionData"][0]["SeedCapability"]}.get(kind)
+                        if seed is not None:
+                            self.seeds[addr_n] = seed(ev)
+                for addr_n, seed in self.seeds.items():
+                    addr = (_ip(addr_n), 14000 + addr_n)
+                    regs = [r for r in self.sess.regions if r.circuit_addr == addr]
+                    if len(regs) == 1 and regs[0].cap_urls.get("Seed") != seed:
+                        out.append(("regions:seed-not-recorded", "region %r was announced with seed %s but has %r" % (addr, seed, regs[0].cap_urls.get("Seed"))))
+                    elif len(regs) == 1:
+                        cd = w.sm.resolve_cap(seed + "/x")
+                        if cd is None or cd.region is None or cd.region() is not regs[0]:
+                            out.append(("regions:seed-not-resolvable", "the seed announced for %r does not resolve to that region" % (addr,)))
                 if len(self.sess.regions) != self.n_regions0 + len(self.addresses):
                     out.append(("regions:count", "session has %d regions after %d distinct announced addresses (+%d initial)" % (
                         len(self.sess.regions), len(self.addresses), self.n_regions0)))
